@@ -1,4 +1,6 @@
 mod cfgbuild;
+mod fanout;
+mod levelgate;
 mod routing;
 mod util;
 
@@ -12,6 +14,8 @@ fn main() {
     match args[1].as_str() {
         "routing" => routing::main(rest),
         "cfgbuild" => cfgbuild::main(rest),
+        "fanout" => fanout::main(rest),
+        "levelgate" => levelgate::main(rest),
         other => {
             eprintln!("unknown command {}", other);
             std::process::exit(2);
